@@ -193,9 +193,20 @@ func init() {
 			}
 		}
 		sp.Probes = nprobe
+		// a third of the sessions also type characters outside Latin-1 (2, 3 and 4 bytes; U+F001 starts with the
+		// byte that starts the U+FFFD bind of the default keymaps) under the UTF-8 meta settings; the reads are
+		// cut inside them like anywhere else
+		uni := r.Intn(3) == 0
+		if uni {
+			sp.Inputrc = "set convert-meta off\nset input-meta on\nset output-meta on\n"
+		}
+		uniLetters := []string{"\u0142", "\u4e2d", "\uf001", "\U0001f600", "\uffe6"}
 		var stream string
 		for k := 1 + r.Intn(6); k > 0; k-- {
 			p := piece()
+			if uni && r.Intn(2) == 0 {
+				p = uniLetters[r.Intn(len(uniLetters))]
+			}
 			if r.Intn(6) == 0 && len(p) > 2 { // an incomplete sequence
 				p = p[:len(p)-1]
 			}
@@ -236,10 +247,16 @@ func init() {
 		if mode == "vi" {
 			em = "0"
 		}
+		if uni {
+			em += "m"
+		}
 		line := fmt.Sprintf("loopsess %s %s %s %s", em, strings.Join(regs, ","), strings.Join(ents, ";"), chunksField(chunks))
 		class := mode
 		if macros > 0 {
 			class += "+macros"
+		}
+		if uni {
+			class += "+unicode"
 		}
 		tr := sessRun(sp)
 		res := "?"
